@@ -286,6 +286,18 @@ def nominal_bins(code_mass_view, tol=0.35):
     return bins
 
 
+def par_driver(chk, lines, workers=4):
+    """the driver is a pure function of each line: run chunks in parallel processes"""
+    if len(lines) < 40:
+        return chk.driver(DRV, lines)
+    from concurrent.futures import ThreadPoolExecutor
+    k = (len(lines) + workers - 1) // workers
+    chunks = [lines[i:i + k] for i in range(0, len(lines), k)]
+    with ThreadPoolExecutor(max_workers=workers) as ex:
+        outs = list(ex.map(lambda ch: chk.driver(DRV, ch), chunks))
+    return [r for o in outs for r in o]
+
+
 def run(chk):
     pt, isotope, constants = _pt()
     tier = chk.tier
@@ -403,7 +415,7 @@ def run(chk):
     tick('round/conv/elem')
     # ---------------------------------------------------------------- (d) isotopic_distribution
     cap = 600 if quick else 1500
-    n_iso = 100 if quick else 900
+    n_iso = 150 if quick else 700
     cases = list(corpus)
     for i in range(n_iso):
         o = gen_opts(rng, constants)
@@ -504,7 +516,7 @@ def run(chk):
 
     lines = [iso_line(cases[i]) for i in to_model]
     t_model = time.time()
-    replies = chk.driver(DRV, lines)
+    replies = par_driver(chk, lines)
     t_model = time.time() - t_model
     st = chk.corr.setdefault('isotopic_distribution', {'evaluations': 0, 'disagreements': 0, 'samples': []})
     for i, l, m in zip(to_model, lines, replies):
@@ -663,8 +675,21 @@ def run(chk):
                 return False
         return True
 
-    chk.correspond('TEST_exact_multinomial_model_vs_reference', DRV, xcases, x_line, x_impl, compare=x_cmp,
-                   nontrivial_fn=lambda c, im: sum(c[0].values()) >= 1)
+    xlines = [x_line(c) for c in xcases]
+    xreplies = par_driver(chk, xlines)
+    stx = chk.corr.setdefault('TEST_exact_multinomial_model_vs_reference', {'evaluations': 0, 'disagreements': 0, 'samples': []})
+    for c, l, m in zip(xcases, xlines, xreplies):
+        stx['evaluations'] += 1
+        chk.evaluations += 1
+        im = x_impl(c)
+        if sum(c[0].values()) >= 1:
+            chk.nontrivial.add('TEST_exact_multinomial_model_vs_reference|' + l)
+            if len(stx['samples']) < 2:
+                stx['samples'].append({'line': l[:300], 'impl': 'Fraction multinomial reference of ' + im[:200], 'model': m[:300]})
+        if not x_cmp(im, m):
+            stx['disagreements'] += 1
+            if len([d for d in chk.disagreements if d['op'] == 'TEST_exact_multinomial_model_vs_reference']) < 5:
+                chk.disagreements.append({'op': 'TEST_exact_multinomial_model_vs_reference', 'line': l[:1500], 'impl': im, 'model': m[:1500]})
 
     def o_exact_code(c):
         """the real code at its finest documented resolution (6) and sum-normalised, against the exact multinomial reference.
